@@ -62,6 +62,10 @@ pub enum Placement {
     /// block ends flush against an inaccessible guard page (PROT_NONE):
     /// any access past the end of the allocation faults.
     PageEnd = 4,
+    /// a plain bump allocator without headers or red zones: consecutive
+    /// allocations are exactly adjacent in memory (what a small bootloader
+    /// heap does); overruns are not detected in this mode
+    Packed = 5,
 }
 
 #[derive(Clone, Copy, Debug, PartialEq, Eq)]
@@ -125,6 +129,7 @@ impl Config {
                         2 => Placement::ReuseLifo,
                         3 => Placement::RandomGap,
                         4 => Placement::PageEnd,
+                        5 => Placement::Packed,
                         _ => return None,
                     }
                 }
@@ -381,6 +386,15 @@ fn canary_byte(off: usize) -> u8 {
 }
 
 impl State {
+    /// red-zone width of this run
+    fn rz(&self) -> usize {
+        if self.cfg.placement == Placement::Packed {
+            0
+        } else {
+            RZ
+        }
+    }
+
     fn flag(&mut self, kind: FlagKind, b: Option<&Block>, off: u32, f: Option<Layout>) {
         // (After an injected failure the process may be on std's abort path,
         // whose diagnostics — a backtrace when RUST_BACKTRACE is set — allocate
@@ -417,6 +431,9 @@ impl State {
     }
 
     unsafe fn write_canaries(&self, off: usize, size: usize) {
+        if self.rz() == 0 {
+            return;
+        }
         let base = arena() as *mut u8;
         for i in 0..RZ {
             *base.add(off - RZ + i) = canary_byte(off - RZ + i);
@@ -429,6 +446,9 @@ impl State {
     /// Back canary only for guarded blocks is shortened to what fits before
     /// the guard page (possibly zero bytes) — the page itself is the detector.
     unsafe fn check_canaries(&mut self, bi: usize) {
+        if self.rz() == 0 {
+            return;
+        }
         let b = self.blocks[bi];
         let base = arena() as *mut u8;
         let off = b.off as usize;
@@ -529,7 +549,7 @@ impl State {
             }
         }
         if !recycled {
-            let start = self.bump + RZ;
+            let start = self.bump + self.rz();
             let placement = match self.cfg.placement {
                 Placement::RandomGap => match r % 3 {
                     0 => Placement::Natural16,
@@ -542,6 +562,7 @@ impl State {
                 p => p,
             };
             off = match placement {
+                Placement::Packed => round_up(start, align),
                 Placement::Natural16 => round_up(start, align.max(16)),
                 Placement::PageEnd => {
                     // end of the block flush at a page boundary; that page
@@ -562,7 +583,7 @@ impl State {
                 }
             };
             cap = size;
-            let mut end = off + size + RZ;
+            let mut end = off + size + self.rz();
             if guarded {
                 let gp = round_up(off + size, PAGE);
                 end = gp + PAGE;
@@ -717,7 +738,7 @@ impl State {
         if b.size as usize != layout.size() || b.align as usize != layout.align() {
             self.flag(FlagKind::LayoutMismatch, Some(&b), b.off, Some(layout));
         }
-        let is_top = off + b.size as usize + RZ == self.bump;
+        let is_top = off + b.size as usize + self.rz() == self.bump;
         let guarded_block = self.is_guard((round_up(off + b.size as usize, PAGE) / PAGE) as u32)
             && round_up(off + b.size as usize, PAGE) - (off + b.size as usize) < RZ;
         let can_in_place = !guarded_block
@@ -733,7 +754,7 @@ impl State {
                     Fill::PatternAA => std::ptr::write_bytes(p, 0xAA, extra),
                     Fill::Random | Fill::Stale => {}
                 }
-                self.bump = off + new_size + RZ;
+                self.bump = off + new_size + self.rz();
                 if self.bump > self.high_water {
                     self.high_water = self.bump;
                 }
